@@ -11,8 +11,10 @@ package main
 
 import (
 	"fmt"
+	"io"
 	"math"
 	"math/rand"
+	"net/http"
 	"path/filepath"
 	"sort"
 	"strconv"
@@ -535,10 +537,13 @@ func blackBox(r *hx.Result, cfg hx.Config, rng *rand.Rand) {
 		rounds, ops = 60, 150
 	}
 	for round := 0; round < rounds; round++ {
-		s, err := srv.Start(filepath.Join(cfg.Work, fmt.Sprintf("c19-%d", round)), "--appendonly", "no")
+		mport := srv.FreePort()
+		s, err := srv.Start(filepath.Join(cfg.Work, fmt.Sprintf("c19-%d", round)), "--appendonly", "no",
+			"--metrics-addr", fmt.Sprintf("127.0.0.1:%d", mport))
 		if err != nil {
 			panic(err)
 		}
+		metricsURL = fmt.Sprintf("http://127.0.0.1:%d/metrics", mport)
 		func() {
 			defer s.Kill()
 			c := s.MustDial()
@@ -591,6 +596,24 @@ func blackBox(r *hx.Result, cfg hx.Config, rng *rand.Rand) {
 				key, id := bbKeys[rng.Intn(3)], bbIDs[rng.Intn(len(bbIDs))]
 				if rng.Intn(5) == 0 {
 					key = allKeys[rng.Intn(5)] // incl. "tmp" and "depot": usually missing or just emptied
+				}
+				if rng.Intn(12) == 0 {
+					// hook / channel registry (fences on a key nothing is ever written to: no events)
+					hn := []string{"h1", "h2", "ha", "c1", "c2", "ca"}[rng.Intn(6)]
+					switch rng.Intn(7) {
+					case 0, 1:
+						do("SETHOOK", hn, "http://127.0.0.1:9/"+hn, "NEARBY", "nofleet", "FENCE", "POINT", "1", "1", strconv.Itoa(100+rng.Intn(3)))
+					case 2, 3:
+						do("SETCHAN", hn, "WITHIN", "nofleet", "FENCE", "DETECT", "outside,cross", "BOUNDS", "0", "0", strconv.Itoa(1+rng.Intn(3)), "5")
+					case 4:
+						do([]string{"DELHOOK", "DELCHAN"}[rng.Intn(2)], hn)
+					case 5:
+						do([]string{"PDELHOOK", "PDELCHAN"}[rng.Intn(2)], []string{"h*", "c*", "*a"}[rng.Intn(3)])
+					default:
+						do("SETHOOK", hn, "http://127.0.0.1:9/"+hn, "NEARBY", "nofleet", "FENCE", "ROAM", "nofleet", "*", "100")
+					}
+					r.Dist("bb:HOOK-OP")
+					continue
 				}
 				switch k := rng.Intn(100); {
 				case k < 50:
@@ -704,6 +727,38 @@ func classifyBounds(got, want [4]float64) string {
 	return "bounds-f32-key"
 }
 
+var metricsURL string
+
+// scrapeMetrics reads the Prometheus endpoint: "name{labels} value" lines -> map
+func scrapeMetrics() map[string]float64 {
+	if metricsURL == "" {
+		return nil
+	}
+	resp, err := http.Get(metricsURL)
+	if err != nil {
+		return nil
+	}
+	defer resp.Body.Close()
+	b, err := io.ReadAll(resp.Body)
+	if err != nil || resp.StatusCode != 200 {
+		return nil
+	}
+	out := map[string]float64{}
+	for _, line := range strings.Split(string(b), "\n") {
+		if line == "" || line[0] == '#' {
+			continue
+		}
+		i := strings.LastIndexByte(line, ' ')
+		if i < 0 {
+			continue
+		}
+		if f, err := strconv.ParseFloat(line[i+1:], 64); err == nil {
+			out[line[:i]] = f
+		}
+	}
+	return out
+}
+
 func num(v srv.Value) int64 {
 	if v.Kind == ':' {
 		return v.Int
@@ -753,9 +808,15 @@ func checkServer(r *hx.Result, c *srv.Conn, hist []string, round, step int) {
 		fail("keys-vs-retrievable", fmt.Sprintf("KEYS * = %q, the keys holding at least one retrievable object are %q", sortedKeys, live))
 	}
 	var tot recomputed
+	type keyRC struct {
+		key string
+		rc  recomputed
+	}
+	var perKey []keyRC
 	for _, key := range keys {
 		objs := scanDump(c, key)
 		rc := recompute(objs)
+		perKey = append(perKey, keyRC{key, rc})
 		tot.objects += rc.objects
 		tot.strings += rc.strings
 		tot.points += rc.points
@@ -837,6 +898,53 @@ func checkServer(r *hx.Result, c *srv.Conn, hist []string, round, step int) {
 	}
 	if m["num_collections"] != int64(len(live)) {
 		fail("num-collections", fmt.Sprintf("SERVER num_collections = %d, %d keys hold a retrievable object (%q)", m["num_collections"], len(live), live))
+	}
+	// SERVER EXT totals, hook registry size, Prometheus metrics: the same recomputation
+	em := statsMap(c.MustDo("SERVER", "EXT"))
+	if em["tile38_num_objects"] != tot.objects || em["tile38_num_strings"] != tot.strings || em["tile38_num_points"] != tot.points ||
+		em["tile38_in_memory_size"] != tot.weight || em["tile38_num_collections"] != int64(len(live)) {
+		fail("server-ext-totals", fmt.Sprintf("SERVER EXT = objects %d strings %d points %d size %d collections %d; recomputation gives %d %d %d %d %d",
+			em["tile38_num_objects"], em["tile38_num_strings"], em["tile38_num_points"], em["tile38_in_memory_size"], em["tile38_num_collections"],
+			tot.objects, tot.strings, tot.points, tot.weight, len(live)))
+	}
+	hv, cv := c.MustDo("HOOKS", "*"), c.MustDo("CHANS", "*")
+	nh := int64(len(hv.Array) + len(cv.Array))
+	names := map[string]bool{}
+	for _, l := range [][]srv.Value{hv.Array, cv.Array} {
+		for _, h := range l {
+			if len(h.Array) > 0 {
+				if names[h.Array[0].Str] {
+					fail("hook-listed-twice", fmt.Sprintf("hook/channel name %q is listed twice by HOOKS * + CHANS *", h.Array[0].Str))
+				}
+				names[h.Array[0].Str] = true
+			}
+		}
+	}
+	r.Count(fmt.Sprintf("bb/%d/%d/hooks", round, step), nh >= 2)
+	if m["num_hooks"] != nh || em["tile38_num_hooks"] != nh {
+		fail("num-hooks", fmt.Sprintf("SERVER num_hooks = %d, SERVER EXT tile38_num_hooks = %d, HOOKS * + CHANS * list %d", m["num_hooks"], em["tile38_num_hooks"], nh))
+	}
+	if mt := scrapeMetrics(); mt != nil {
+		want := map[string]float64{"tile38_collections": float64(len(live)), "tile38_hooks": float64(nh), "tile38_in_memory_size_bytes": float64(tot.weight)}
+		for _, pk := range perKey {
+			want[`tile38_collection_objects{col="`+pk.key+`"}`] = float64(pk.rc.objects)
+			want[`tile38_collection_points{col="`+pk.key+`"}`] = float64(pk.rc.points)
+			want[`tile38_collection_strings{col="`+pk.key+`"}`] = float64(pk.rc.strings)
+			want[`tile38_collection_weight_bytes{col="`+pk.key+`"}`] = float64(pk.rc.weight)
+		}
+		for k, w := range want {
+			if g, ok := mt[k]; !ok || g != w {
+				fail("metrics", fmt.Sprintf("/metrics %s = %v (present=%v), recomputation gives %v", k, g, ok, w))
+			}
+		}
+		for k := range mt {
+			if strings.HasPrefix(k, "tile38_collection_objects{") {
+				if _, ok := want[k]; !ok {
+					fail("metrics", fmt.Sprintf("/metrics reports %s for a key without a retrievable object", k))
+				}
+			}
+		}
+		r.Dist("bb:metrics-scrape")
 	}
 	// a key without any retrievable object must be absent through every path
 	for _, key := range allKeys {
